@@ -93,6 +93,12 @@ CLAIMED["C36"] = ("mux", "exploration",
    "Replies racing with an in-flight request may go either way. Non-request packets for unknown channels need not end the connection. No transport underneath.",
    "DESIGN.md section 4 H-mux")
 
+CLAIMED["C51"] = ("autocert", "exploration",
+   "deterministic simulation of the real autocert.Manager with a simulated ACME CA, a fault-injecting simulated Cache and a fake clock under seeded schedules; enumerated sweep of the renewal scheduler over lifetimes x RenewBefore x now",
+   "A real autocert.Manager (instrumented, with the real acme.Client underneath) serves 1-8 concurrent GetCertificate calls with generated hellos against a generated HostPolicy, a pre-populated simulated Cache (valid, expired, not-yet-valid, foreign, mismatched, wrong key type, corrupt entries; faults: errors, lost/torn Put, stale reads, delays) and a simulated CA that issues real X.509 certificates with generated lifetimes and validates challenges by calling back into the Manager, while the fake clock crosses renewal and expiry instants. Oracles: a non-challenge certificate is returned only for names the policy accepts (policy modelled from the HostWhitelist documentation); every returned certificate parses, covers the name, is within its validity on the simulated clock, matches its private key and the hello's key type; a burst of hellos for one name causes at most one order; renewals observed at the CA start inside the documented window; the renewal scheduler (direct calls, enumerated 25 RenewBefore x 30 lifetimes x 11 positions x 3 draws) never panics, never returns a negative delay and stays inside the documented jitter window; nobody is parked at quiescence. Seeded sampling for the system runs.",
+   "DirCache, the listener and two Managers sharing a cache are not exercised. The jitter direction is undocumented: a two-sided window is asserted. Requires the verif-tagged hook acme/autocert/verif_hooks.go (deterministic jitter source).",
+   "DESIGN.md section 4 H-autocert")
+
 NA = {
  "C01": "pure function of (key, nonce, plaintext, ad): no schedule, clock, peer, stream fault or persisted state for a simulator to own; needs an independent AEAD and input generation (differential testing)",
  "C02": "pure predicate over byte strings; tampering here is input mutation, not an in-flight fault on a stateful stream",
@@ -136,7 +142,7 @@ NA = {
 PLANNED = {
   
     
-    "C51": "H-autocert",
+    
 }
 
 def main():
